@@ -75,9 +75,8 @@ func restartDirScen(c *Ctx) {
 		}
 		f := &genFile{key: ks + "/" + hash, data: b.Data}
 		layout := r.Weighted(6, 1, 1) // current, flat v0, two-level v1
-		if ks == "raw" && layout == 1 {
-			layout = 0
-		}
+		// (flat raw/ directories are part of the property's "legacy flat ... raw/
+		// layouts"; they were left out until seeded change C09d)
 		var content []byte
 		switch {
 		case layout == 0 && ks == "cas" && r.Chance(2, 3):
